@@ -182,18 +182,20 @@ class PrepeptideParts(Harness):
     functions = ["antismash.common.secmet.features.prepeptide:Prepeptide.to_biopython",
                  FT + "Feature.get_sub_location_from_protein_coordinates",
                  "antismash.common.secmet.locations:convert_protein_position_to_dna"]
-    bound = ("a precursor gene with 1 or 2 exons or origin-spanning, either strand, symbolic exon boundaries (whole codons in total); "
+    bound = ("a precursor gene with 1, 2 or 3 exons or origin-spanning (two or three exons), either strand, symbolic exon boundaries (whole codons in total); "
              "leader of 0-2, core of 1-2 and tail of 0-1 residues plus free residues in the core so that the lengths fit: the core "
              "length in residues is symbolic (gene length / 3 - leader - tail)")
-    outside = "more than 2 exons; leader / tail longer than two residues (their lengths only enter as constants)"
+    outside = "more than 3 exons; leader / tail longer than two residues (their lengths only enter as constants)"
     task_paths = 200
 
     def variants(self, tier):
         out = []
-        for shape in ("s", "j2", "o"):
+        for shape in ("s", "j2", "o", "j3", "o3"):
             for strand in (1, -1):
                 for leader, tail in (("", ""), ("M", ""), ("MA", "C"), ("", "C")):
                     if tier == "quick" and (leader, tail) in (("M", ""), ("", "C")) and shape != "j2":
+                        continue
+                    if tier == "quick" and shape in ("j3", "o3") and (leader, tail) != ("MA", "C"):
                         continue
                     out.append({"shape": shape, "strand": strand, "leader": leader, "tail": tail})
         return out
@@ -209,6 +211,8 @@ class PrepeptideParts(Harness):
              v["k"] >= len(var["leader"]) + len(var["tail"]) + 1, 0 <= v["t"]]
         if var["shape"] == "j2":
             c.append(v["ge0"] < v["gs1"])
+        if var["shape"] == "j3":
+            c += [v["ge0"] < v["gs1"], v["ge1"] < v["gs2"]]
         return L.And(c)
 
     def run(self, var, v):
